@@ -126,6 +126,14 @@ func main() {
 			infra("replay needs a file")
 		}
 		os.Exit(runReplay(os.Args[2]))
+	case "selftest-models":
+		b := newBuilder()
+		c := exec.Command(b.build("plain"), "-selftest-models")
+		c.Stdout, c.Stderr = os.Stdout, os.Stderr
+		if err := c.Run(); err != nil {
+			os.Exit(2)
+		}
+		os.Exit(0)
 	case "selftest-determinism":
 		os.Exit(selftestDeterminism(os.Args[2:]))
 	case "list":
